@@ -415,6 +415,11 @@ func checkBatchOutcome(sc *Scenario, order []int, refs []*lineRef, out *BatchOut
 			wantFail[fmt.Sprintf("[%d]", pos)] = refs[li].err
 		}
 	}
+	victimID, victimLine := "", -1
+	if out.Victim != nil {
+		victimID, victimLine = fmt.Sprintf("[%d]", out.Victim.pos), out.Victim.line
+		delete(wantFail, victimID)
+	}
 	gotFail := map[string]int{}
 	for _, l := range rep.ErrorLines {
 		id := l
@@ -434,6 +439,13 @@ func checkBatchOutcome(sc *Scenario, order []int, refs []*lineRef, out *BatchOut
 		}
 	}
 	for id, n := range gotFail {
+		if id == victimID {
+			// a run whose disk failed may end with an error of its own, but only once and under its own id
+			if n > 1 {
+				add("error-summary", "failed-line-not-listed-once", fmt.Sprintf("line %s (result disk failing) is listed %d times in the error summary", id, n), id)
+			}
+			continue
+		}
 		if _, ok := wantFail[id]; !ok {
 			add("error-summary", "good-line-listed-as-failed", fmt.Sprintf("line %s succeeds alone but is listed %d times in the error summary", id, n), id)
 		}
@@ -443,6 +455,9 @@ func checkBatchOutcome(sc *Scenario, order []int, refs []*lineRef, out *BatchOut
 	}
 	// result streams equal the solo reference, byte for byte
 	for pos, li := range order {
+		if li == victimLine && out.Victim != nil && pos == out.Victim.pos {
+			continue
+		}
 		got := outputsOf(out.Disk, outIDOf(sc, li))
 		if d := diffFiles(refs[li].files, got); d != "" {
 			add("solo-equivalence", "stream-differs-from-solo-run", fmt.Sprintf("line [%d] (%s): %s", pos, sc.lineText(li), d), fmt.Sprintf("[%d]", pos))
@@ -694,6 +709,8 @@ func execBatch(sc *Scenario, env *Env) *Result {
 				allV = append(allV, v)
 			}
 		}
+	case "diskfault":
+		allV = append(allV, execDiskFault(sc, env, refs, order, run, res)...)
 	}
 	seen := map[string]bool{}
 	for _, v := range allV {
@@ -738,7 +755,7 @@ func init() {
 				sc.Sched.Overlap = []int{r.Intn(3), r.Range(3, 40), r.Range(40, 400)}
 				sc.Sched.OverlapK = r.PickI([]int{0, 2, 3, 8})
 			default:
-				sc.Params["mode"] = []string{"serial", "permute", "permute", "stale", "crash"}[idx%5]
+				sc.Params["mode"] = []string{"serial", "permute", "diskfault", "stale", "crash", "permute"}[idx%6]
 			}
 			if r.Bool(0.3) {
 				sc.Params["log"] = "0"
@@ -751,8 +768,8 @@ func init() {
 		RaceFrac:   0.25,
 		NonTrivial: batchNonTrivial,
 		Chunk:      6,
-		Rule:       "one batch scenario (1-4 generated projects, 2-24 lines, concurrency 1..16) per evaluation, executed by the real dispatcher inside a synctest bubble under a seeded scheduler; modes rotate over serial / permuted+other concurrency / stale files / crash and re-run over torn survivors / overlap windows under the race detector; non-trivial = at least two runs were parked simultaneously (a real interleaving choice existed); distinct = distinct hash of the (task, point) decision sequence projected on pool and send events",
-		ReachKeys:  []string{"reach.interleaved", "fault.permutation", "fault.stale-file", "fault.crash", "fault.overlap-window"},
+		Rule:       "one batch scenario (1-4 generated projects, 2-24 lines, concurrency 1..16) per evaluation, executed by the real dispatcher inside a synctest bubble under a seeded scheduler; modes rotate over serial / permuted+other concurrency / write errors (sticky, transient, torn) on one line's result stream / stale files / crash and re-run over torn survivors / overlap windows under the race detector; non-trivial = at least two runs were parked simultaneously (a real interleaving choice existed); distinct = distinct hash of the (task, point) decision sequence projected on pool and send events",
+		ReachKeys:  []string{"reach.interleaved", "fault.permutation", "fault.stale-file", "fault.crash", "fault.overlap-window", "fault.write-error.scenarios", "reach.records-resumed-after-fault"},
 		Assumptions: []string{
 			"interleavings are sampled at hook granularity (run start, every pooled-file Get, result-file open/close/record end, log and result sends) plus windows of real parallel execution; not all Go-scheduler interleavings are enumerated",
 			"the reference of every line is the same line executed alone in a fresh session on the same input files",
